@@ -63,11 +63,13 @@ _SPACES = None
 _TIER = None
 _SEED = None
 _INITED = False
+_HISTORY = []        # chunks this worker process has executed so far: the call history behind any state it carries
 
 
 def _work(task):
     global _INITED
     si, lo, hi = task
+    hist_before = list(_HISTORY)
     sub = _SPACES[si]
     if not _INITED:
         if hasattr(_MOD, "init_worker"):
@@ -102,9 +104,10 @@ def _work(task):
                 slot = viol.setdefault(key, {"cls": v["cls"], "count": 0, "examples": []})
                 slot["count"] += 1
                 if len(slot["examples"]) < MAX_VIOL_PER_CLASS:
-                    slot["examples"].append(dict(v, sub=name, index=i, case=case))
+                    slot["examples"].append(dict(v, sub=name, index=i, case=case, worker_history=hist_before + [[si, lo, i]]))
     except Exception:
         return {"error": "harness error in %s[%d]: %s" % (name, i, traceback.format_exc())}
+    _HISTORY.append([si, lo, hi])
     return {"si": si, "lo": lo, "hi": hi, "n": n, "nt": nt, "hist": hist, "viol": viol,
             "samples": samples}
 
@@ -201,6 +204,7 @@ def write_replay(pid, slot, tier, seed):
         "sub": ex.get("sub"), "index": ex.get("index"), "case": ex.get("case"),
         "expected": ex.get("expected"), "observed": ex.get("observed"),
         "detail": ex.get("detail"),
+        "worker_history": ex.get("worker_history"),
         "env": {"TZ": os.environ.get("TZ"), "PYTHONHASHSEED": os.environ.get("PYTHONHASHSEED"),
                 "tier": tier, "seed": seed, "repo": target.REPO, "repo_head": target.git_head()},
         "how_to": "./check %s --replay %s" % (pid, path),
@@ -222,6 +226,115 @@ def confirm_in_fresh_process(pid, path):
     return r.returncode == 1, (r.stdout + r.stderr)[-2000:]
 
 
+def recover_history_in_fresh_process(pid, path):
+    """The case alone did not reproduce: search (in a fresh interpreter) for the calls of the worker's history that it needs."""
+    try:
+        r = subprocess.run([os.path.join(target.VERIF, "check"), pid, "--recover-history", path],
+                           capture_output=True, text=True, timeout=900)
+    except subprocess.TimeoutExpired:
+        return False, "history recovery timed out"
+    return r.returncode == 1, (r.stdout + r.stderr)[-2000:]
+
+
+def _same_class(v, rec):
+    return v is not None and json.dumps(codec.enc(v["cls"]), sort_keys=True, ensure_ascii=False) == \
+        json.dumps(codec.enc(rec["class"]), sort_keys=True, ensure_ascii=False)
+
+
+def do_recover_history(mod, path, budget_s=240):
+    """Delta-debug the recorded worker history (chunks, then single cases) down to a short list of earlier cases after which the
+    case violates the property.  Every trial runs in a child forked from this pristine process.  Rewrites the replay file."""
+    rec = codec.loads(open(path, encoding="utf-8").read())
+    wh = rec.get("worker_history")
+    if not wh or hasattr(mod, "replay") or not hasattr(mod, "run_case"):
+        return 0
+    env = rec.get("env", {})
+    tier, seed = env.get("tier", "quick"), env.get("seed", 0)
+    if hasattr(mod, "selfcheck"):
+        mod.selfcheck()
+    spaces = mod.spaces(tier, seed)
+    if hasattr(mod, "init_worker"):
+        mod.init_worker(tier, seed)
+    by_name = {sp.name: k for k, sp in enumerate(spaces)}
+    t0 = time.time()
+    trials = [0]
+
+    def trial(items):
+        """items: list of [si, lo, hi] ranges.  True if, after running them in order, the case violates with the recorded class."""
+        trials[0] += 1
+        r, w = os.pipe()
+        pid = os.fork()
+        if pid == 0:
+            ok = b"0"
+            try:
+                os.close(r)
+                for si, lo, hi in items:
+                    sp = spaces[si]
+                    for i in range(lo, hi):
+                        try:
+                            mod.run_case(sp.name, sp[i])
+                        except Exception:  # noqa: BLE001
+                            pass
+                res = mod.run_case(rec["sub"], rec["case"])
+                if _same_class(res[2] if res else None, rec):
+                    ok = b"1"
+            except BaseException:  # noqa: BLE001
+                ok = b"0"
+            finally:
+                try:
+                    os.write(w, ok)
+                finally:
+                    os._exit(0)
+        os.close(w)
+        with os.fdopen(r, "rb") as f:
+            data = f.read()
+        os.waitpid(pid, 0)
+        return data == b"1"
+
+    def ddmin(items):
+        n = 2
+        while len(items) >= 2 and time.time() - t0 < budget_s:
+            size = max(1, len(items) // n)
+            subsets = [items[k:k + size] for k in range(0, len(items), size)]
+            reduced = False
+            for k in range(len(subsets)):
+                if time.time() - t0 >= budget_s:
+                    break
+                comp = [x for j, sub in enumerate(subsets) if j != k for x in sub]
+                if comp and trial(comp):
+                    items = comp
+                    n = max(n - 1, 2)
+                    reduced = True
+                    break
+            if not reduced:
+                if n >= len(items):
+                    break
+                n = min(len(items), n * 2)
+        return items
+
+    items = [list(x) for x in wh if x[2] > x[1]]
+    if trial([]):
+        print("history recovery: the case reproduces without any history")
+        return 1
+    if not trial(items):
+        print("history recovery: not reproduced even after the whole recorded worker history (%d chunks): genuinely unstable" % len(items))
+        return 0
+    items = ddmin(items)
+    cases = [[si, i, i + 1] for si, lo, hi in items for i in range(lo, hi)]
+    if len(cases) <= 5000:
+        cases = ddmin(cases)
+    history = [{"sub": spaces[si].name, "index": lo, "case": spaces[si][lo]} for si, lo, hi in cases] if len(cases) <= 200 else None
+    rec["history"] = history
+    rec["history_ranges"] = [[spaces[si].name, lo, hi] for si, lo, hi in cases] if history is None else None
+    rec["history_recovery"] = {"trials": trials[0], "seconds": round(time.time() - t0, 1), "cases_in_history": sum(hi - lo for _, lo, hi in cases)}
+    rec["how_to"] = rec["how_to"] + "   (runs the listed history of earlier calls first, in a fresh process)"
+    with open(path, "w", encoding="utf-8") as f:
+        f.write(codec.dumps(rec, indent=1))
+    print("history recovery: the case violates the property after %d earlier call(s) of the same check (%d trials)" % (
+        rec["history_recovery"]["cases_in_history"], trials[0]))
+    return 1
+
+
 def do_replay(mod, path):
     rec = codec.loads(open(path, encoding="utf-8").read())
     if hasattr(mod, "selfcheck"):
@@ -231,9 +344,28 @@ def do_replay(mod, path):
     if hasattr(mod, "replay"):
         v = mod.replay(rec)
     else:
+        if rec.get("history") or rec.get("history_ranges"):
+            # the violation needs earlier calls: make them first (same process, in order)
+            if rec.get("history"):
+                for h in rec["history"]:
+                    try:
+                        mod.run_case(h["sub"], h["case"])
+                    except Exception:  # noqa: BLE001
+                        pass
+            else:
+                env = rec.get("env", {})
+                sps = {sp.name: sp for sp in mod.spaces(env.get("tier", "quick"), env.get("seed", 0))}
+                for name, lo, hi in rec["history_ranges"]:
+                    for i in range(lo, hi):
+                        try:
+                            mod.run_case(name, sps[name][i])
+                        except Exception:  # noqa: BLE001
+                            pass
         res = mod.run_case(rec["sub"], rec["case"])
         v = res[2] if res else None
     print("replay %s sub=%s" % (rec["property"], rec.get("sub")))
+    if rec.get("history"):
+        print("  after:    %d earlier call(s): %s" % (len(rec["history"]), codec.dumps([h["case"] for h in rec["history"][:6]])[:600]))
     print("  case:     %s" % codec.dumps(rec.get("case")))
     if v is None:
         print("  result:   property holds on this case (no violation reproduced)")
@@ -288,6 +420,7 @@ def main(argv=None):
     ap.add_argument("prop")
     ap.add_argument("--tier", default=os.environ.get("VERIF_TIER") or "quick", choices=["quick", "thorough"])
     ap.add_argument("--replay")
+    ap.add_argument("--recover-history")
     ap.add_argument("--jobs", type=int, default=int(os.environ.get("VERIF_JOBS") or 0) or (os.cpu_count() or 4))
     ap.add_argument("--no-confirm", action="store_true")
     a = ap.parse_args(argv)
@@ -302,6 +435,8 @@ def main(argv=None):
         mod = importlib.import_module("vf.props.%s" % pid.lower())
         if a.replay:
             return do_replay(mod, a.replay)
+        if a.recover_history:
+            return do_recover_history(mod, a.recover_history)
         deadline = int(os.environ.get("VERIF_DEADLINE_S") or (1500 if a.tier == "quick" else 7200))
         old = os.path.join(target.OUT, "replays", pid)
         if os.path.isdir(old):
@@ -328,6 +463,8 @@ def main(argv=None):
     lines = []
     flaky = 0
     n_viol = 0
+    recovered = 0
+    history_dependent = 0
     for key, slot in report.violations.items():
         f = next((f for f in findings if matcher(f, slot["cls"])), None)
         if f is not None:
@@ -337,6 +474,17 @@ def main(argv=None):
         path = write_replay(pid, slot, a.tier, seed)
         if not a.no_confirm and getattr(mod, "CONFIRM", True) and n_viol < 8:
             ok, out = confirm_in_fresh_process(pid, path)
+            if not ok and recovered < 3:
+                # the outcome depends on what this worker executed before: find those calls; the property quantifies over every
+                # call whatever came earlier, so a case that violates it after a replayable history of real API calls is a violation
+                recovered += 1
+                ok, out2 = recover_history_in_fresh_process(pid, path)
+                out += out2
+                if ok:
+                    ok, out3 = confirm_in_fresh_process(pid, path)
+                    out += out3
+                    if ok:
+                        history_dependent += 1
             if not ok:
                 flaky += 1
                 print("FLAKY (not reproduced in a fresh process, not reported as violation): %s\n%s"
@@ -353,6 +501,8 @@ def main(argv=None):
     wall = time.time() - t0
     write_evidence(mod, report, a.tier, seed, wall, n_viol,
                    {fid: k["count"] for fid, k in known_hit.items()}, flaky)
+    if history_dependent:
+        print("  note: %d violation class(es) reproduce only after earlier calls of the same check; the replay files list those calls" % history_dependent)
     nt = len(report.nontrivial) if isinstance(report.nontrivial, set) else report.nontrivial
     print("%s tier=%s seed=%d evaluations=%d distinct_nontrivial=%d exhaustive=%s violations=%d known=%d flaky=%d wall=%.1fs" % (
         pid, a.tier, seed, report.evaluations, nt, report.exhaustive, n_viol, len(known_hit), flaky, wall))
